@@ -80,7 +80,7 @@ def outputs_of(recipe, vals):
     return outs
 
 
-def run_recipe(recipe, cfg, workdir, monitors=("block", "trace"), expected=None, keep_vals=False, max_tasks=400):
+def run_recipe(recipe, cfg, workdir, monitors=("block", "trace"), expected=None, keep_vals=False, max_tasks=400, callbacks=None, executor=None):
     """cfg: {"executor": name, "executor_opts": {}, "optimize": bool, "optimizer": {...}, "spec": {...}}
 
     Returns observation record (JSON-able except 'results' np arrays).
@@ -122,8 +122,9 @@ def run_recipe(recipe, cfg, workdir, monitors=("block", "trace"), expected=None,
         rec["skipped"] = f"plan has {fp.num_tasks} tasks > {max_tasks}"
         return rec
     rec["phase"] = "execute"
-    inner = make_executor(cfg.get("executor", "single-threaded"), cfg.get("executor_opts"))
+    inner = executor or make_executor(cfg.get("executor", "single-threaded"), cfg.get("executor_opts"))
     ex = advexec.Wrap(inner) if not isinstance(inner, advexec.SeqExecutor) else inner
+    rec["_plan"] = fp if keep_vals else None
     if "block" in monitors:
         blockshape.start()
     if "trace" in monitors:
@@ -133,7 +134,7 @@ def run_recipe(recipe, cfg, workdir, monitors=("block", "trace"), expected=None,
             warnings.simplefilter("ignore")
             res = cubed.compute(
                 *outs, executor=ex, optimize_graph=cfg.get("optimize", True), optimize_function=optf,
-                **cfg.get("compute_kw", {}),
+                callbacks=callbacks, **cfg.get("compute_kw", {}),
             )
         rec["results"] = [np.asarray(r) for r in res]
         rec["phase"] = "done"
